@@ -104,6 +104,37 @@ func blockedStacks() string {
 	return strings.Join(out, "\n--\n")
 }
 
+// bubbleMates returns the stacks of the OTHER goroutines of the calling goroutine's synctest bubble (the runtime
+// labels every goroutine of a bubble with the bubble's id).
+func bubbleMates() []string {
+	buf := make([]byte, 1<<20)
+	buf = buf[:runtime.Stack(buf, true)]
+	groups := bytes.Split(buf, []byte("\n\n"))
+	if len(groups) == 0 {
+		return nil
+	}
+	head, _, _ := strings.Cut(string(groups[0]), "\n") // the calling goroutine comes first
+	_, mine, ok := strings.Cut(head, "synctest bubble ")
+	if !ok {
+		return nil
+	}
+	mine = strings.TrimRight(mine, "]:")
+	var out []string
+	for _, g := range groups[1:] {
+		s := string(g)
+		h, _, _ := strings.Cut(s, "\n")
+		// (the bubble's own plumbing - synctest.Run and the testing goroutine that waits for the root - carries the label too)
+		if _, id, ok := strings.Cut(h, "synctest bubble "); ok && strings.TrimRight(id, "]:") == mine && strings.Contains(s, "specterops/dawgs") {
+			lines := strings.Split(s, "\n")
+			if len(lines) > 11 {
+				lines = lines[:11]
+			}
+			out = append(out, strings.Join(lines, "\n"))
+		}
+	}
+	return out
+}
+
 // ---- minimal graph.Database: ReadTransaction invokes the delegate ----
 
 type fakeTx struct {
